@@ -12,7 +12,7 @@ PROP = "C02"
 
 
 def run(tier, seed):
-    return speccheck.run(PROP, tier, seed, ["rowlevel", "slices", "general", "scen_subq_hidden", "scen_rename_hidden", "rowlevel", "window", "scen_empty_args"], 300, 10000, also=("C01",),
+    return speccheck.run(PROP, tier, seed, ["rowlevel", "slices", "general", "scen_subq_hidden", "scen_rename_hidden", "rowlevel", "window", "scen_empty_args", "subquery", "scen_alias_below_limit"], 300, 10000, also=("C01",),
                          assumptions=["the refinement of each backend's compilation to the Spec is established by comparison on generated programs "
                                       "(both backends vs the Lean evaluator); a Lean refinement proof exists for the fragment stated in Props/C01",
                                       "operators outside the modelled set (front.MODEL_OPS) exclude a program from the Spec comparison"])
